@@ -51,8 +51,20 @@ fn with_variable(value: Line, use_kind: u8, name_pick: u8) -> (Vec<Line>, Line) 
             l.push(Tok::word(w, Class::Var));
         }
     };
-    match use_kind % 6 {
-        0 => push_name(&mut u),
+    // kinds 6 and 7: the name was bound before (to another value) and is re-bound by `def`
+    let mut prelude = vec![];
+    if use_kind % 8 >= 6 {
+        let mut first = Line::default();
+        for w in name.split(' ') {
+            first.push(Tok::word(w, Class::Var));
+        }
+        first.push(Tok::op('='));
+        first.push(Tok::num(NumLit::new(7.0)));
+        prelude.push(first);
+    }
+    prelude.push(def);
+    match use_kind % 8 {
+        0 | 6 => push_name(&mut u),
         4 => {
             // the use is itself an assignment: `other = name * 2,5`
             u.push(Tok::word("other", Class::Var));
@@ -69,7 +81,7 @@ fn with_variable(value: Line, use_kind: u8, name_pick: u8) -> (Vec<Line>, Line) 
             u.push(Tok::op('+'));
             push_name(&mut u);
         }
-        1 => {
+        1 | 7 => {
             push_name(&mut u);
             u.push(Tok::op('*'));
             u.push(Tok::num(NumLit::new(2.5)));
@@ -85,7 +97,7 @@ fn with_variable(value: Line, use_kind: u8, name_pick: u8) -> (Vec<Line>, Line) 
             u.push(Tok::num(NumLit::new(4.0)));
         }
     }
-    (vec![def], u)
+    (prelude, u)
 }
 
 pub fn any_line() -> impl Strategy<Value = GenLine> {
@@ -110,7 +122,7 @@ pub fn any_line() -> impl Strategy<Value = GenLine> {
         crate::c05::value_strategy().prop_map(|p| Line::new(vec![Tok::with("", p, "%", Class::Percent)])),
         crate::c10::part_strategy().prop_map(|p| Line::new(p.toks("en"))),
     ];
-    let c03 = (var_value, 0u8..6, 0u8..6).prop_map(|(v, k, n)| {
+    let c03 = (var_value, 0u8..8, 0u8..6).prop_map(|(v, k, n)| {
         let (prelude, line) = with_variable(v, k, n);
         GenLine { prelude, line, lang: "en".into(), tz: None, src: "C03".into() }
     });
